@@ -40,6 +40,8 @@ CHECKS["C19"] = dict(
         P("bytes", "unit", "TestC19Bytes", dict(checks=5000, shards=4, timeout=600), dict(checks=1000000, shards=16, timeout=3000)),
         P("lengths", "unit", "TestC19Lengths", dict(checks=1, shards=1), dict(checks=1, shards=1), rapid=False),
         P("golden", "unit", "TestC19Golden", dict(checks=1, shards=1), dict(checks=1, shards=1), rapid=False),
+        P("fixture", "seq", "TestC19Fixture", dict(checks=1, shards=1), dict(checks=1, shards=1), rapid=False),
+        P("fuzz", "unit", "FuzzC19Decode", None, dict(fuzztime="180s", timeout=900), rapid=False, fuzz=True),
     ],
 )
 
@@ -182,7 +184,8 @@ CHECKS["C11"] = dict(
           "part 'errors': error values built from every exported sentinel under random fmt.Errorf(%w) chains / errors.Join with foreign errors -> adapter Error -> gRPC status -> adapter ClientError; class(client(server(e))) must equal class(e), non-sentinel errors must become ErrUnknown."),
     assumptions=_E1_ASSUME[:2] + ["differential via the shared model: both clients are compared with the same reference model rather than with each other (the inline runs are C01-C03, C13)",
                                   "known finding C13-late-write-accepted applies here too (writes through ended handles)"],
-    parts=[P("ext", "seq", "TestC11", dict(checks=96, shards=8, timeout=900), dict(checks=4000, shards=16, timeout=3400))],
+    parts=[P("ext", "seq", "TestC11", dict(checks=96, shards=8, timeout=900), dict(checks=4000, shards=16, timeout=3400)),
+           P("errors", "unit", "TestC11Errors", dict(checks=20000, shards=4, timeout=600), dict(checks=1000000, shards=16, timeout=3000))],
 )
 
 CHECKS["C15"] = dict(
